@@ -158,6 +158,17 @@ CLAIMED = {
         "symbolic evaluation of the yield/energy formulas; sibling-chain cross-check; positional provenance over the ast",
         "other",
     ),
+    "C07": (
+        "Decides, for every symbolic grass/feed/requirement/efficiency/herd value and both species kinds, on every branch of "
+        "the feeding routine: resources left are non-negative and never increased; energy credited = efficiency x resources "
+        "consumed and lies in [0, required]; non-ruminants leave grass untouched; fed = herd when the requirement is met, else "
+        "round(delivered/required x herd); plus structurally: starving = herd - fed for every animal each month, one pass in "
+        "priority order (descending net kcals per slaughter hour) with balances reset first and leftovers threaded correctly, "
+        "month m's supply offered and offered - left recorded. The 120-month trajectory is not analysed.",
+        "Supplies, requirement and herd size non-negative; efficiencies positive. " + TRUST,
+        "abstract evaluation with guard-derived sign reasoning per leaf; structural order rules over the ast",
+        "other",
+    ),
 }
 
 NOT_APPLICABLE = {
